@@ -104,7 +104,7 @@ func (ev *evaluator) eval(c *Case, trace bool) Verdict {
 				v, _ = w.run(c, trace)
 			}
 		}
-		if (v.Kind == "inconclusive" || v.Kind == "artefact") && strings.Contains(v.Reason, "real-time watchdog") && ev.p.LivenessClaimed && (c.Prop == "C04" || c.Prop == "C06" || c.Prop == "C07") && c.Engine == "" {
+		if (v.Kind == "inconclusive" || v.Kind == "artefact") && strings.Contains(v.Reason, "real-time watchdog") && ev.p.LivenessClaimed && (c.Prop == "C04" || c.Prop == "C06" || c.Prop == "C07" || c.Prop == "C08") {
 			// a mutex waiter in the dump: test-clock artefact or real deadlock? Decide on the real clock.
 			cv := confirmRealtime(c)
 			if ev.stats != nil {
